@@ -1,5 +1,5 @@
 From Coq Require Import ZArith List Bool Lia Permutation.
-Require Import Verif.LG.LGAsyncModel.
+Require Import Verif.Gen.Gen_log_entry Verif.LG.LGAsyncModel.
 Import ListNotations.
 Local Open Scope Z_scope.
 
@@ -188,6 +188,63 @@ Qed.
 Lemma cleared_fst : forall d, map fst (cleared d) = map fst d.
 Proof. intro d. unfold cleared. rewrite map_map. apply map_ext. reflexivity. Qed.
 
+(* ---- chunked writev: the chunks that the kernel accepts reassemble the iov ---- *)
+(* the only two facts used about the generated constant; below IOV_MAX is never unfolded *)
+Lemma iov_max_pos : 1 <= IOV_MAX.
+Proof. vm_compute. intro H; discriminate H. Qed.
+
+Lemma iov_max_kernel : (Z.to_nat IOV_MAX <= KERNEL_UIO_MAXIOV)%nat.
+Proof. apply Nat.leb_le. vm_compute. reflexivity. Qed.
+
+Lemma chunks_S_cons : forall fuel x v,
+  chunks (S fuel) (x :: v) =
+  let n := Z.to_nat (writev_chunk_size (Z.of_nat (length (x :: v)))) in
+  match n with O => [] | _ => firstn n (x :: v) :: chunks fuel (skipn n (x :: v)) end.
+Proof. reflexivity. Qed.
+
+Lemma chunks_concat_fuel : forall fuel v, (length v <= fuel)%nat ->
+  concat (filter writev_ok (chunks fuel v)) = v.
+Proof.
+  induction fuel as [|fuel IH]; intros v Hl.
+  - destruct v as [|x v]; [reflexivity|]. cbn [length] in Hl. lia.
+  - destruct v as [|x v]; [reflexivity|].
+    rewrite chunks_S_cons. cbv zeta.
+    assert (Hpos : (1 <= length (x :: v))%nat) by (cbn [length]; lia).
+    set (u := x :: v) in *.
+    unfold writev_chunk_size.
+    set (n := Z.to_nat (Z.min IOV_MAX (Z.of_nat (length u) - 0))).
+    assert (Hn : (1 <= n <= length u)%nat /\ (n <= KERNEL_UIO_MAXIOV)%nat).
+    { subst n. pose proof iov_max_pos as Hp. pose proof iov_max_kernel as Hk. lia. }
+    destruct n as [|m]; [lia|].
+    cbn [filter].
+    replace (writev_ok (firstn (S m) u)) with true.
+    2:{ symmetry. unfold writev_ok. apply Nat.leb_le. rewrite firstn_length. lia. }
+    cbn [concat]. rewrite IH by (rewrite skipn_length; lia).
+    apply firstn_skipn.
+Qed.
+
+Lemma chunks_concat : forall v, concat (filter writev_ok (chunks (length v) v)) = v.
+Proof. intro v. apply chunks_concat_fuel. apply le_n. Qed.
+
+Definition chunked (d : dests) : dests :=
+  flat_map (fun x => map (fun c => (fst x, c)) (filter writev_ok (chunks (length (snd x)) (snd x)))) d.
+
+Lemma dstream_tagged : forall f g cs, dstream f (map (fun c => (g, c)) cs) = if Nat.eqb g f then concat cs else [].
+Proof.
+  induction cs as [|c cs IH]; [now destruct (Nat.eqb g f)|].
+  cbn [map dstream flat_map fst snd concat]. fold (dstream f (map (fun c => (g, c)) cs)).
+  rewrite IH. destruct (Nat.eqb g f); reflexivity.
+Qed.
+
+Lemma dstream_chunked : forall f d, dstream f (chunked d) = dstream f d.
+Proof.
+  induction d as [|[g w] d IH]; [reflexivity|].
+  cbn [chunked flat_map fst snd]. fold (chunked d).
+  unfold dstream at 1. rewrite flat_map_app. fold (dstream f (chunked d)).
+  fold (dstream f (map (fun c => (g, c)) (filter writev_ok (chunks (length w) w)))).
+  rewrite dstream_tagged, chunks_concat, IH. reflexivity.
+Qed.
+
 (* ---- one iteration of the loop ---- *)
 Lemma step_stopped : forall s b, stopped (flush (scan s b)) = stopped s || has_stop b.
 Proof. intros s b. rewrite scan_eq. reflexivity. Qed.
@@ -200,8 +257,9 @@ Lemma step_stream : forall s b f, NoDup (map fst (pending s)) ->
 Proof.
   intros s b f Hd. rewrite scan_eq. unfold file_stream, flush. cbn [written pending].
   rewrite flat_map_app. f_equal.
-  change (dstream f (filter live (spend (pending s) (upto_stop b))) = dstream f (pending s) ++ contrib f (upto_stop b)).
-  rewrite dstream_live. now apply spend_dstream.
+  change (dstream f (chunked (filter live (spend (pending s) (upto_stop b))))
+          = dstream f (pending s) ++ contrib f (upto_stop b)).
+  rewrite dstream_chunked, dstream_live. now apply spend_dstream.
 Qed.
 
 Lemma step_returned : forall s b,
